@@ -68,6 +68,49 @@ impl Cli {
     }
 }
 
+impl Cli {
+    /// The pieces of ONE GetEndpoints request cut into exactly `m` chunks of CHUNK bytes each (the endpoint url is padded
+    /// to make the last chunk as long as the others), so that the chunks reassemble into a request the server can answer.
+    fn planned(&mut self, m: usize) -> Option<std::collections::VecDeque<MessageChunk>> {
+        let req = |cli: &Cli, pad: usize| -> SupportedMessage {
+            GetEndpointsRequest {
+                request_header: cli.header(),
+                endpoint_url: UAString::from(format!("{}/{}", ENDPOINT.trim_end_matches('/'), "x".repeat(pad))),
+                locale_ids: None,
+                profile_uris: None,
+            }
+            .into()
+        };
+        // the encoded request (type node id + body), as Chunker::encode makes it before cutting it up; the pieces are cut by
+        // hand because Chunker refuses chunk sizes below the 8196 bytes of the specification
+        let encoded = |msg: &SupportedMessage| -> Option<Vec<u8>> {
+            let mut stream = std::io::Cursor::new(Vec::new());
+            msg.node_id().encode(&mut stream).ok()?;
+            msg.encode(&mut stream).ok()?;
+            Some(stream.into_inner())
+        };
+        let hdr = MessageChunk::new(1, 1, MessageChunkType::Message, MessageIsFinalType::Final, &self.chan, &[]).ok()?.data.len();
+        let total0 = encoded(&req(self, 0))?.len();
+        let want = m * (CHUNK - hdr);
+        if want < total0 {
+            return None;
+        }
+        let data = encoded(&req(self, want - total0))?;
+        let pieces: Vec<&[u8]> = data.chunks(CHUNK - hdr).collect();
+        let mut chunks = Vec::new();
+        for (k, piece) in pieces.iter().enumerate() {
+            let fin = if k + 1 == pieces.len() { MessageIsFinalType::Final } else { MessageIsFinalType::Intermediate };
+            chunks.push(MessageChunk::new(self.seq + 1 + k as u32, self.req + 1, MessageChunkType::Message, fin, &self.chan, piece).ok()?);
+        }
+        if chunks.len() != m || chunks.iter().any(|c| c.data.len() != CHUNK) {
+            return None;
+        }
+        self.req += 1;
+        self.seq += m as u32;
+        Some(chunks.into_iter().collect())
+    }
+}
+
 fn kind_of(m: &SupportedMessage) -> String {
     match m {
         SupportedMessage::AcknowledgeMessage(_) => "ACK".into(),
@@ -95,11 +138,14 @@ pub fn run_case(case: &Value, out: &mut Obs) {
     let mut conn = srv.connect();
     let mut cli = Cli::new(srv);
     let mut in_msg = false; // an incomplete message is being sent (intermediate chunks)
+    let mut planned: std::collections::VecDeque<MessageChunk> = std::collections::VecDeque::new();
     let empty = vec![];
+    let steps_all = case.get("steps").and_then(|s| s.as_array()).unwrap_or(&empty);
     for (i, s) in case.get("steps").and_then(|s| s.as_array()).unwrap_or(&empty).iter().enumerate() {
         let kind = gets(s, "kind").to_string();
         let fl = gets(s, "fl").to_string();
         let svc = gets(s, "svc").to_string();
+        let mut sz = 0usize;
         let r = guard(|| {
             if conn.t.is_finished() {
                 return (false, vec![], "".to_string());
@@ -140,7 +186,24 @@ pub fn run_case(case: &Value, out: &mut Obs) {
             if kind == "MSGS" {
                 cli.chan.set_secure_channel_id(real_ids.0 + 7);
             }
-            let chunk = if fl != "F" || in_msg {
+            // intermediate MSG chunks that are followed by a final GetEndpoints chunk are the pieces of one real request
+            if !in_msg && planned.is_empty() && kind == "MSG" && fl == "C" {
+                let is = |x: &Value, k: &str, f: &str| gets(x, "kind") == k && gets(x, "fl") == f;
+                let mut j = i;
+                while j < steps_all.len() && is(&steps_all[j], "MSG", "C") {
+                    j += 1;
+                }
+                if j < steps_all.len() && is(&steps_all[j], "MSG", "F") && gets(&steps_all[j], "svc") == "GetEndpoints" {
+                    if let Some(p) = cli.planned(j - i + 1) {
+                        planned = p;
+                    }
+                }
+            }
+            let chunk = if !planned.is_empty() && kind == "MSG" && fl != "A" {
+                in_msg = fl == "C";
+                planned.pop_front()
+            } else if fl != "F" || in_msg {
+                planned.clear();
                 let c = cli.raw(ctype, fin, !in_msg);
                 in_msg = fl == "C";
                 c
@@ -188,6 +251,11 @@ pub fn run_case(case: &Value, out: &mut Obs) {
                 Some(c) => c,
                 None => return (true, vec![], "harness-could-not-build-chunk".to_string()),
             };
+            sz = chunk.data.len();
+            if std::env::var("VERIF_DEBUG").is_ok() {
+                let ms = u32::from_le_bytes([chunk.data[4], chunk.data[5], chunk.data[6], chunk.data[7]]);
+                eprintln!("frame {} {} {}: len {} header size {} flag {}", i + 1, kind, fl, chunk.data.len(), ms, chunk.data[3] as char);
+            }
             let (r, o) = conn.t.verif_chunk(chunk);
             // the client learns the channel / token ids from the OPN response
             for (_, m) in &o {
@@ -200,6 +268,9 @@ pub fn run_case(case: &Value, out: &mut Obs) {
             match r {
                 Ok(()) => (true, kinds, "".to_string()),
                 Err(e) => {
+                    if std::env::var("VERIF_DEBUG").is_ok() {
+                        eprintln!("frame {} {} {}: {}", i + 1, kind, fl, e);
+                    }
                     conn.t.finish(e);
                     (true, kinds, "error".to_string())
                 }
@@ -230,6 +301,7 @@ pub fn run_case(case: &Value, out: &mut Obs) {
         obj.insert("state".into(), json!(state_of(&conn.t)));
         obj.insert("pend".into(), json!(pn));
         obj.insert("bytes".into(), json!(pb));
+        obj.insert("sz".into(), json!(sz));
         out.push(o);
         if failed {
             break;
